@@ -18,6 +18,11 @@ import (
 
 func main() {
 	debug.SetGCPercent(400)
+	// The SDK's keyring probes the desktop secret service through D-Bus; with no session bus address
+	// the D-Bus client auto-launches a dbus-daemon that outlives this process. Point it nowhere.
+	if os.Getenv("DBUS_SESSION_BUS_ADDRESS") == "" {
+		os.Setenv("DBUS_SESSION_BUS_ADDRESS", "unix:path=/nonexistent/verif-no-dbus")
+	}
 	if len(os.Args) < 2 {
 		fmt.Fprintln(os.Stderr, "usage: fmc explore|replay ...")
 		os.Exit(2)
